@@ -161,6 +161,9 @@ type LoopParams struct {
 	SkipUntil bool `json:"skip_until"`
 	// ReopenFault adds "transient end whose first re-open attempt is rejected" to the alphabet
 	ReopenFault bool `json:"reopen_fault"`
+	// Stored: the session starts from a checkpoint an earlier session stored (two user documents per vBucket,
+	// both acknowledged and saved under the vBucket's vbUUID of that time) instead of from the empty store
+	Stored bool `json:"stored"`
 }
 
 func init() {
@@ -186,11 +189,14 @@ func init() {
 			}
 			return []Instance{
 				{Scenario: "c14_loop", Params: mustJSON(LoopParams{Depth: d}), Bound: 0, Shards: 8},
+				{Scenario: "c02_twogroups", Params: mustJSON(struct{}{}), Bound: 0, Note: "distinct group names in ONE process address distinct documents (the saves of one group never touch the other's)"},
 				// the filter for reserved keys does not depend on where the library keeps its own documents
 				{Scenario: "pipe", Params: mustJSON(PipeParams{Mode: "gen", Alphabet: []string{"M", "Mres", "Mtxn", "Dres", "Minfix"}, Depth: 3, Ops: []string{"deliver0", "deliver1", "ackold"}, Backend: "file"}), Bound: 0, Shards: 4, Note: "reserved / transaction keys under file metadata"},
 				{Scenario: "pipe", Params: mustJSON(PipeParams{Mode: "gen", Alphabet: []string{"M", "Mres", "Mtxn", "Dres", "Minfix"}, Depth: 3, Ops: []string{"deliver0", "deliver1", "ackold"}, MetaBucket: true}), Bound: 0, Shards: 4, Note: "reserved / transaction keys with the checkpoints in a second bucket"},
 				{Scenario: "c14_loop", Params: mustJSON(LoopParams{Depth: d, Rebalance: true}), Bound: 0, Shards: 8, Note: "alphabet extended by a real Rebalance()"},
 				{Scenario: "c14_loop", Params: mustJSON(LoopParams{Depth: d, Failover: true}), Bound: 0, Shards: 8, Note: "alphabet extended by a fail-over without rollback (transient end, re-open under a new vbUUID)"},
+				{Scenario: "c14_loop", Params: mustJSON(LoopParams{Depth: d, Failover: true, Stored: true}), Bound: 0, Shards: 8, Note: "the same from a stored checkpoint of an earlier session (the loaded positions carry the vbUUID of that time)"},
+				{Scenario: "c14_loop", Params: mustJSON(LoopParams{Depth: d, Rebalance: true, Stored: true}), Bound: 0, Shards: 8, Note: "Rebalance() alphabet from a stored checkpoint"},
 				{Scenario: "c14_loop", Params: mustJSON(LoopParams{Depth: d, SkipUntil: true}), Bound: 0, Shards: 8, Note: "skipUntil one hour ahead of the server clock: the library's own documents are also 'old'"},
 				{Scenario: "c14_loop", Params: mustJSON(LoopParams{Depth: d, ReopenFault: true}), Bound: 0, Shards: 8, Note: "alphabet extended by a transient end whose first re-open attempt is rejected"},
 				{Scenario: "c14_loop", Params: mustJSON(LoopParams{Sched: true}), Bound: b, Shards: 8, Note: "fixed history deliver,ack,commit,tick,tick over all schedules within the bound"},
@@ -214,6 +220,12 @@ func loopMain(p LoopParams) {
 		}
 	}
 	c := NewCluster(&o)
+	if p.Stored {
+		for vb := uint16(0); vb < 2; vb++ {
+			c.Append(vb, marker(1, 2), userMut(1, "old1"), userMut(2, "old2"))
+			seedCheckpoint(c, srcBucket, o.Group, vb, uint64(c.Vb[vb].Failover[0].VbUUID), 2, 1, 2)
+		}
+	}
 	c.MetaLoop = true
 	e := NewEnv(c, o)
 	e.Stream.Open()
@@ -363,6 +375,9 @@ func loopMain(p LoopParams) {
 		// the furthest event of this vBucket that was delivered to the library and is either a
 		// library-internal key or an acknowledged user event
 		var want uint64
+		if p.Stored {
+			want = 2 // the position the earlier session stored
+		}
 		for _, pk := range c.Vb[vb].Log {
 			if pk.Kind == "mutation" && strings.HasPrefix(string(pk.Key), reservedPrefix) && pk.Seq > want {
 				want = pk.Seq
